@@ -2,20 +2,20 @@ package main
 
 import (
 	"fmt"
-	"strings"
 	"go/token"
 	"go/types"
+	"strings"
 
 	"golang.org/x/tools/go/ssa"
 )
 
 func init() {
 	register(&Property{
-		ID:  "C05",
-		Run: runC05,
-		Explain: "Static structural necessary conditions of the retry sender: (R1) no attempt after a verdict – every cycle from the attempt back to itself passes the err!=nil test, the not-permanent test, the back-off-not-stopped test, the max-elapsed test and the deadline test, and the verdict side of each (and the ctx.Done / stop cases of the wait) cannot reach another attempt; the retry sender exists only when retry is enabled; (R2) the waited duration is the one the limit tests were made with, and it depends on both the exponential back-off and the throttle error's delay; (R3) the request used for later attempts is the remainder returned by OnError of the *current* request, and each OnError narrows to the error's Data() under errors.As, else keeps the request; (R4) a wait interrupted by shutdown returns a shutdown-classified error (shared with C01.R5); (R5) each attempt runs under a context derived with the configured timeout whose cancel is deferred; (R6) the sender chain is pusher → timeout → retry → obs-report → queue.",
+		ID:         "C05",
+		Run:        runC05,
+		Explain:    "Static structural necessary conditions of the retry sender: (R1) no attempt after a verdict – every cycle from the attempt back to itself passes the err!=nil test, the not-permanent test, the back-off-not-stopped test, the max-elapsed test and the deadline test, and the verdict side of each (and the ctx.Done / stop cases of the wait) cannot reach another attempt; the retry sender exists only when retry is enabled; (R2) the waited duration is the one the limit tests were made with, and it depends on both the exponential back-off and the throttle error's delay; (R3) the request used for later attempts is the remainder returned by OnError of the *current* request, and each OnError narrows to the error's Data() under errors.As, else keeps the request; (R4) a wait interrupted by shutdown returns a shutdown-classified error (shared with C01.R5); (R5) each attempt runs under a context derived with the configured timeout whose cancel is deferred; (R6) the sender chain is pusher → timeout → retry → obs-report → queue.",
 		NotDecided: "The numeric back-off envelope, `at least the requested delay` as an inequality over durations, clock behaviour.",
-		Assumes: []string{"backoff.ExponentialBackOff and time package semantics", "consumererror.IsPermanent classifies by error chain"},
+		Assumes:    []string{"backoff.ExponentialBackOff and time package semantics", "consumererror.IsPermanent classifies by error chain"},
 	})
 }
 
